@@ -77,6 +77,15 @@ impl Sys for Mv {
     fn cmd_name(c: Cmd) -> String {
         if c.k == WRITE { "write(<op index>, read().derive_add_ctx(actor))".into() } else { "write(77, read().derive_add_ctx(actor))".into() }
     }
+    fn rust_type() -> &'static str {
+        "MVReg<u8, u8>"
+    }
+    fn rust_gen(c: Cmd, a: u8, idx: usize) -> String {
+        format!("s.write({}, s.read().derive_add_ctx({}))", if c.k == WRITE { idx as u8 } else { 77 }, a)
+    }
+    fn rust_reads() -> &'static str {
+        "let r = s.read(); let mut v = r.val.clone(); v.sort(); format!(\"values {:?} context {:?}\", v, r.add_clock)"
+    }
     fn spec(recs: &[Rec<Self>], k: Mask, form: Form) -> Option<String> {
         let mut vals = vec![];
         for (i, r) in recs.iter().enumerate() {
